@@ -222,6 +222,9 @@ typedef struct
     Bit32u writebuf_last;
     Bit64u writebuf_lasttime;
     opn2_writebuf writebuf[OPN_WRITEBUF_SIZE];
+
+    /* Emulation mode of this chip (ym3438_mode_*), kept across OPN2_Reset */
+    Bit32u chip_type;
 } ym3438_t;
 
 /* EXTRA, original was "void OPN2_Reset(ym3438_t *chip)" */
